@@ -181,7 +181,9 @@ def check(ck):
     if len(stc) != 1 or len(puts) != 1 or len(incp) != 1:
         raise AnalysisError("anchor vanished: put / pending increment / __start_thread in enqueue")
     guards = [(g.nodes[i], norm_cmp(g.nodes[i].test, g.nodes[i].polarity)) for i in d[stc[0].id] if g.nodes[i].kind == "branch"]
-    okk = [b for (b, nc) in guards if nc == ("self.__nb_threads", "<", "self.__nb_pending_task")]
+    # `pending > threads`; `pending >= threads` only starts a worker earlier (the bound is enforced in __start_thread)
+    GROW = (("self.__nb_threads", "<", "self.__nb_pending_task"), ("self.__nb_threads", "<=", "self.__nb_pending_task"))
+    okk = [b for (b, nc) in guards if nc in GROW]
     ck.require(bool(okk), "C10.3", "%s: growth test `pending > threads`" % q.fn(fenq), "guards __start_thread()",
                "a new worker is not started exactly when more tasks are pending than threads exist (guards: %s)" % [nc for (_b, nc) in guards], q.loc(fenq, stc[0]))
     for b in okk:
@@ -189,7 +191,7 @@ def check(ck):
                    "inside `with self.__lock`", "the growth decision is taken outside the pool lock", q.loc(fenq, b))
         ck.require(incp[0].id in d[b.id] and puts[0].id in d[incp[0].id], "C10.3", "%s: put -> pending += 1 -> growth test" % q.fn(fenq),
                    "ordered by dominance", "the growth test does not follow the put and the pending increment", q.loc(fenq, b))
-    ck.require(all(nc is None or nc == ("self.__nb_threads", "<", "self.__nb_pending_task") for (_b, nc) in guards), "C10.3",
+    ck.require(all(nc is None or nc in GROW for (_b, nc) in guards), "C10.3",
                "%s: no other comparison guards the growth" % q.fn(fenq), "single guard", "additional guards restrict the growth: %s" % [nc for (_b, nc) in guards],
                q.loc(fenq, stc[0]))
 
@@ -440,7 +442,8 @@ def check(ck):
                 ctr = st.target.attr
                 exact = amount == 1 and not isinstance(amount, bool)
                 # over-counting waiting tasks only makes the pool grow earlier: tolerated; everything else must be one unit
-                tolerated = ctr == "__nb_pending_task" and isinstance(st.op, ast.Add) and isinstance(amount, int) and amount >= 1
+                tolerated = ctr == "__nb_pending_task" and isinstance(st.op, ast.Add) and isinstance(amount, int) and \
+                    (amount >= 1 or (fi.name != "enqueue" and amount >= 0))
                 ck.require((exact or tolerated) and isinstance(st.op, (ast.Add, ast.Sub)), "C10.7b", "%s: `%s` moves the counter by one" % (q.fn(fi), dump(st)),
                            "one unit per worker / task",
                            "`%s` does not move %s by exactly one: the count of %s drifts with every event (the bound on the number of workers, the "
